@@ -22,12 +22,12 @@ func TestVerif(t *testing.T) {
 		Level: "model_checking",
 		Rule: "(a) every DAG of the exhaustive family U(n) x every root x every link-closed destination subset x Concurrency x API variant under the default schedule; " +
 			"(b) every curated collision shape x pre-population x Concurrency under every schedule within the deviation bound of three base schedulers; " +
-			"(c) curated shapes x ordered pairs of store kinds (memory, OCI layout, file). Oracle: generator's own edge list. " +
+			"(c) curated shapes x ordered pairs of store kinds (memory, OCI layout, file, remote via Referrers API, remote via tag schema). Oracle: generator's own edge list. " +
 			"non-trivial = distinct (shape, root, pre-population, variant) scenario in which at least one node was actually transferred",
 		Assumptions: []string{
 			"DAG universe bounded by the grammar in harness/common/dag.go (U(4) quick, U(5) thorough) plus the curated family",
 			"schedules within the stated deviation bound; interleavings at sync/atomic/channel/file-system operation granularity",
-			"remote (registry) endpoints are covered by the C13 harness pairing, not here",
+			"remote endpoints are a Repository over the in-process registry model (with and without the Referrers API)",
 		},
 		Jobs:           jobs,
 		BudgetQuick:    200,
@@ -168,7 +168,7 @@ func jobs(tier string) []driver.Job {
 		}
 	}
 	// (c) pairing sweep
-	kinds := []string{"memory", "oci", "file"}
+	kinds := []string{"memory", "oci", "file", "remote-api", "remote-tags"}
 	for _, d := range Curated() {
 		root := len(d.Nodes) - 1
 		for _, sk := range kinds {
@@ -231,8 +231,13 @@ func (s scen) make(transferred *bool) (func(), func(*vs.Result) *driver.Fail) {
 	if err := srcS.Tag(context.Background(), rootDesc, "ref"); err != nil {
 		panic(err)
 	}
-	src := &SrcTarget{Src: Src{W: w, Inner: srcS}, R: srcS, P: srcS}
-	dst := &Dst{W: w, Inner: dstS}
+	var src oras.ReadOnlyGraphTarget = &SrcTarget{Src: Src{W: w, Inner: srcS}, R: srcS, P: srcS}
+	var dst oras.Target = &Dst{W: w, Inner: dstS}
+	if strings.HasPrefix(s.src, "remote") || strings.HasPrefix(s.dst, "remote") {
+		// hand the real stores to Copy so that the reference-fetch / reference-push
+		// shortcuts of registry targets are taken; the final-state oracle still applies
+		src, dst = srcS, dstS
+	}
 	opts := oras.CopyOptions{CopyGraphOptions: oras.CopyGraphOptions{Concurrency: s.conc}}
 	wantRoot := s.root
 	dstRef := "ref"
@@ -281,7 +286,7 @@ func (s scen) make(transferred *bool) (func(), func(*vs.Result) *driver.Fail) {
 	case "graph-cancelled", "copy-cancelled":
 		cancel()
 	case "copy-cancel-in-resolve":
-		src.R = resolverFunc(func(c context.Context, ref string) (ocispec.Descriptor, error) {
+		src.(*SrcTarget).R = resolverFunc(func(c context.Context, ref string) (ocispec.Descriptor, error) {
 			cancel()
 			return srcS.Resolve(c, ref)
 		})
